@@ -614,7 +614,7 @@ void exec_call(const ExecOp &op, int opi, ExecObs &obs) {
         st.environ_snap = G.w.env;
         st.environ_ptr = make_vec(G.w.env, G.w.environ_null, false, env_store);
         environ = st.environ_ptr;
-        tzset();
+        sim_tzset_canonical();
     } else { st.environ_ptr = environ; st.environ_snap.clear(); if (environ) for (char **e = environ; *e; e++) st.environ_snap.push_back(*e); }
     obs.self_tid = (unsigned long)pthread_self();
     obs.before = take_snapshot();
@@ -646,19 +646,44 @@ void exec_call(const ExecOp &op, int opi, ExecObs &obs) {
     t_in_sim = 0;
 }
 
-// harness-side strftime under the environment of the simulated process (oracle for %{datetime})
-std::string host_strftime(const World &w, const std::string &fmt, int64_t t) {
+// tzset() under the current `environ`, from a canonical prior state of the C library's time-zone code (its answers on a
+// DST-end day depend on what was parsed before): every simulated process image starts from the same state
+void sim_tzset_canonical() {
+    static char other_tz[] = "TZ=XRESET0";
+    char *reset_env[] = {other_tz, nullptr};
+    char **run_env = environ;
+    environ = reset_env; tzset();
+    environ = run_env; tzset();
+}
+
+// harness-side strftime under the environment of the simulated process (oracle for %{datetime}).
+// glibc's localtime_r() is state dependent on the day a POSIX TZ string without explicit rules leaves DST: the first
+// conversion after the TZ string was parsed and a later one (rules cached for that year) can differ by the DST hour
+// (TZ=CET-1CEST, 2009-11-01 07:23:31 UTC: +0200 first, +0100 afterwards). Both are "what the C library says"; the
+// oracle therefore returns the freshly parsed answer and, if different, the cached one as an alternative.
+std::vector<std::string> host_strftime_all(const World &w, const std::string &fmt, int64_t t) {
     std::vector<char *> store;
     char **saved = environ;
     char **e = make_vec(w.env, w.environ_null, false, store);
-    environ = e; tzset();
-    time_t tt = (time_t)t; struct tm tmv; char buf[512]; buf[0] = 0;
-    std::string out;
-    if (localtime_r(&tt, &tmv)) { size_t n = strftime(buf, 255, fmt.c_str(), &tmv); if (n == 0) out = "(error @ strftime())"; else out.assign(buf, n); }
+    static char other_tz[] = "TZ=XRESET0";
+    char *reset_env[] = {other_tz, nullptr};
+    std::vector<std::string> out;
+    auto convert = [&]() {
+        time_t tt = (time_t)t; struct tm tmv; char buf[512]; buf[0] = 0;
+        std::string one;
+        if (localtime_r(&tt, &tmv)) { size_t n = strftime(buf, 255, fmt.c_str(), &tmv); if (n == 0) one = "(error @ strftime())"; else one.assign(buf, n); }
+        bool seen = false; for (auto &o : out) if (o == one) seen = true;
+        if (!seen) out.push_back(one);
+    };
+    // the states a process can be in when it converts: TZ parsed right after the default zone, right after another POSIX
+    // zone, and with the year's rules already cached
+    environ = saved; tzset(); environ = e; tzset(); convert(); convert();
+    environ = reset_env; tzset(); environ = e; tzset(); convert(); convert();
     environ = saved; tzset();
     free_vec(e, store);
     return out;
 }
+std::string host_strftime(const World &w, const std::string &fmt, int64_t t) { return host_strftime_all(w, fmt, t)[0]; }
 
 // ------------------------------------------------------------------ plan interpreter
 static void streams_begin() {
